@@ -23,7 +23,7 @@ Inductive uwf : utree -> Prop :=
 Lemma norm_go_app s p q : norm_go s (p ++ q) = norm_go (norm_go s p) q.
 Proof.
   revert s. induction p as [|x p IH]; intros s; cbn; auto.
-  destruct x as [|k]; [destruct s as [|y s']|]; apply IH.
+  destruct x as [|k]; [destruct s as [|[|k'] s']|]; apply IH.
 Qed.
 
 Lemma norm_go_dn s p : norm_go s (dn p) = rev (dn p) ++ s.
@@ -37,20 +37,29 @@ Proof.
   unfold normalize. rewrite norm_go_dn, app_nil_r. apply rev_involutive.
 Qed.
 
-(* shape of a normalisation stack: Dn's on top of at most one Up *)
+(* shape of a normalisation stack: Dn's on top of any number of Ups *)
+Fixpoint allup (s : list seg) : bool :=
+  match s with
+  | [] => true
+  | Up :: s' => allup s'
+  | Dn _ :: _ => false
+  end.
+
 Fixpoint sgood (s : list seg) : bool :=
   match s with
   | [] => true
   | Dn _ :: s' => sgood s'
-  | Up :: s' => match s' with [] => true | _ => false end
+  | Up :: s' => allup s'
   end.
+
+Lemma allup_sgood s : allup s = true -> sgood s = true.
+Proof. destruct s as [|[|k] s']; cbn; auto; discriminate. Qed.
 
 Lemma norm_go_sgood p : forall s, sgood s = true -> sgood (norm_go s p) = true.
 Proof.
   induction p as [|x p IH]; intros s Hs; cbn; auto.
   destruct x as [|k].
-  - destruct s as [|y s']; apply IH; auto.
-    destruct y as [|k']; cbn in Hs; auto. destruct s'; [reflexivity|discriminate].
+  - destruct s as [|[|k'] s']; apply IH; auto.
   - apply IH. exact Hs.
 Qed.
 
@@ -58,7 +67,8 @@ Lemma sgood_replay s : sgood s = true -> norm_go [] (rev s) = s.
 Proof.
   induction s as [|x s IH]; intros Hs; cbn; auto.
   rewrite norm_go_app. destruct x as [|k]; cbn in Hs.
-  - destruct s; [reflexivity|discriminate].
+  - rewrite IH by (apply allup_sgood; exact Hs).
+    destruct s as [|[|k'] s']; [reflexivity|reflexivity|discriminate].
   - rewrite IH by exact Hs. reflexivity.
 Qed.
 
@@ -766,6 +776,62 @@ Qed.
 
 End Inverse.
 
+(* ================= Part 7: the repaired normalisation is compositional ================= *)
+
+Lemma norm_go_replay_step s t x : norm_go s (rev t ++ [x]) = norm_go s (rev (norm_go t [x])).
+Proof.
+  destruct x as [|k]; [|reflexivity].
+  destruct t as [|[|k'] t']; try reflexivity.
+  cbn [norm_go rev]. rewrite <- app_assoc, norm_go_app. reflexivity.
+Qed.
+
+Lemma norm_go_replay p : forall s t, norm_go s (rev t ++ p) = norm_go s (rev (norm_go t p)).
+Proof.
+  induction p as [|x p IH]; intros s t.
+  - cbn. now rewrite app_nil_r.
+  - change (x :: p) with ([x] ++ p). rewrite app_assoc, norm_go_app, norm_go_replay_step.
+    rewrite <- norm_go_app, IH. rewrite (norm_go_app t [x] p). reflexivity.
+Qed.
+
+(* normalisation is compositional: normalising a suffix first changes nothing (what the pinned code violated) *)
+Theorem normalize_app_normalize a p : normalize (a ++ normalize p) = normalize (a ++ p).
+Proof.
+  unfold normalize. f_equal. rewrite !norm_go_app.
+  symmetry. apply (norm_go_replay p (norm_go [] a) []).
+Qed.
+
+Lemma norm_go_ups n : forall m, norm_go (repeat Up m) (repeat Up n) = repeat Up (n + m).
+Proof.
+  induction n as [|n IH]; intros m; [reflexivity|].
+  destruct m as [|m]; cbn [repeat norm_go].
+  - change [Up] with (repeat Up 1). rewrite (IH 1).
+    change (Up :: repeat Up (n + 0)) with (repeat Up (S (n + 0))). f_equal. lia.
+  - change (Up :: Up :: repeat Up m) with (repeat Up (S (S m))). rewrite (IH (S (S m))).
+    change (Up :: repeat Up (n + S m)) with (repeat Up (S (n + S m))). f_equal. lia.
+Qed.
+
+Lemma rev_repeat_seg (x : seg) n : rev (repeat x n) = repeat x n.
+Proof.
+  induction n as [|n IH]; [reflexivity|]. cbn [repeat rev]. rewrite IH.
+  change (x :: repeat x n) with (repeat x (S n)). clear IH.
+  induction n as [|n IH]; [reflexivity|]. cbn [repeat app] in *. now rewrite IH.
+Qed.
+
+(* leading '..' segments are kept, all of them *)
+Theorem normalize_ups n p : normalize (repeat Up n ++ dn p) = repeat Up n ++ dn p.
+Proof.
+  unfold normalize. rewrite norm_go_app. change (@nil seg) with (repeat Up 0) at 1.
+  rewrite (norm_go_ups n 0), norm_go_dn, Nat.add_0_r.
+  rewrite rev_app_distr, rev_involutive, rev_repeat_seg. reflexivity.
+Qed.
+
+(* the pinned code: two leading '..' cancelled each other, so the result depended on the parity of their number and
+   normalisation was not compositional *)
+Theorem normalize_pinned_refuted :
+  normalize_pinned [Up; Up; Dn 1%N] = [Dn 1%N] /\
+  normalize_pinned ([Dn 5%N; Dn 6%N] ++ [Up; Up; Dn 1%N]) <> normalize_pinned ([Dn 5%N; Dn 6%N] ++ normalize_pinned [Up; Up; Dn 1%N]).
+Proof. split; [reflexivity|vm_compute; discriminate]. Qed.
+
 Print Assumptions norm_go_app.
 Print Assumptions normalize_dn.
 Print Assumptions normalize_idem.
@@ -788,3 +854,6 @@ Print Assumptions paths_dict_inverse.
 Print Assumptions establish_reaches.
 Print Assumptions establish_keeps_leaves.
 Print Assumptions establish_keeps_nodes.
+Print Assumptions normalize_app_normalize.
+Print Assumptions normalize_ups.
+Print Assumptions normalize_pinned_refuted.
